@@ -70,6 +70,16 @@ theorem exec_inoInv (t : Name) (new : Bytes) (s : FS × Proc) (o : Op) (h : InoI
     rcases hop with hop | hop
     · exact Below_mono (Nat.le_succ _) (hp op hop)
     · subst hop; simp [DirOp.Below, exec]
+  | openFixed trunc =>
+    simp only [exec]
+    split
+    · refine ⟨DirBelow_mono (Nat.le_succ _) hd, ?_⟩
+      intro op hop
+      simp only [List.mem_append, List.mem_singleton] at hop
+      rcases hop with hop | hop
+      · exact Below_mono (Nat.le_succ _) (hp op hop)
+      · subst hop; simp [DirOp.Below]
+    · exact ⟨hd, hp⟩
   | write enc => simp only [exec]; split <;> exact ⟨hd, hp⟩
   | fsync => simp only [exec]; split <;> exact ⟨hd, hp⟩
   | close => exact ⟨hd, hp⟩
